@@ -65,7 +65,7 @@ func runC19(c *Ctx) {
 	}
 	n := c.Pick(1500, 30000)
 	var mu sync.Mutex
-	var evals, preN, lookN, inplaceN int64
+	var evals, preN, lookN, inplaceN, sameLenN int64
 	distinct := mon.NewDistinct(1_000_000)
 	lenClass := func(l int) int {
 		switch {
@@ -246,6 +246,18 @@ func runC19(c *Ctx) {
 			for i := range old {
 				old[i] = 0xee
 			}
+			if r.Intn(3) == 0 {
+				// an older conversion of an image of the SAME length with another offset /
+				// other contents, written after the input (so not older than it): the output
+				// has the right size and a fresh time stamp, and is still stale
+				old = append([]byte(nil), want...)
+				for i := 1; i < len(old); i += 1 + r.Intn(7) {
+					old[i] ^= 0x5a
+				}
+				mu.Lock()
+				sameLenN++
+				mu.Unlock()
+			}
 			os.WriteFile(filepath.Join(dir, outName), old, 0o644)
 			mu.Lock()
 			preN++
@@ -303,9 +315,10 @@ func runC19(c *Ctx) {
 	c.R.Set("evaluations", evals)
 	c.R.Set("runs_over_preexisting_output", preN)
 	c.R.Set("runs_converting_in_place", inplaceN)
+	c.R.Set("runs_over_a_stale_output_of_the_right_size", sameLenN)
 	c.R.Set("images_that_look_like_a_container", lookN)
 	c.R.Set("distinct_nontrivial", distinct.N())
 	c.R.Set("exhaustive", false)
-	c.R.Set("rule", "the built cmd/cim2bin and cmd/cim2cas binaries are run (cwd = scratch dir) on generated images: lengths {1,2,255,256,257, up to 2048, and the maximal length whose last byte lands exactly on FFFF (1/3 of cases) or just below} with arbitrary contents incl. CR LF ^Z NUL and, in 1/5 of cases, images that themselves start with a consistent BSAVE or CAS header (raw code may begin with FE; a tool's output may be fed back), offsets {0,1,00FF,0100,8000,A000 (explicit and default),FF00,FFFF, near FFFF, random} in decimal or 0x form, names of length 1..12 over all byte values incl. spaces, control bytes, valid multi-byte UTF-8 and invalid UTF-8, and the default name (the -cim argument, file names of 1..12 chars); in 1/3 of the runs the output path already holds an older longer/shorter file, in 1/8 the output path is the input file itself or a symbolic / hard link to it (conversion in place); output bytes compared with the layout written out from the property. Distinct = distinct (tool, length, offset, name length) tuples; every invocation is non-trivial")
+	c.R.Set("rule", "the built cmd/cim2bin and cmd/cim2cas binaries are run (cwd = scratch dir) on generated images: lengths {1,2,255,256,257, up to 2048, and the maximal length whose last byte lands exactly on FFFF (1/3 of cases) or just below} with arbitrary contents incl. CR LF ^Z NUL and, in 1/5 of cases, images that themselves start with a consistent BSAVE or CAS header (raw code may begin with FE; a tool's output may be fed back), offsets {0,1,00FF,0100,8000,A000 (explicit and default),FF00,FFFF, near FFFF, random} in decimal or 0x form, names of length 1..12 over all byte values incl. spaces, control bytes, valid multi-byte UTF-8 and invalid UTF-8, and the default name (the -cim argument, file names of 1..12 chars); in 1/3 of the runs the output path already holds an older longer/shorter file (or a stale one of exactly the right size, written after the input), in 1/8 the output path is the input file itself or a symbolic / hard link to it (conversion in place); output bytes compared with the layout written out from the property. Distinct = distinct (tool, length, offset, name length) tuples; every invocation is non-trivial")
 	c.R.Assume("I/O error behaviour is outside the property; end address always fits in 16 bits")
 }
